@@ -4,7 +4,7 @@ from common import *
 from kern_common import *
 
 TRI_KINDS = ['random', 'integer', 'graded', 'zerosub', 'repeated', 'wilkinson', 'zero', 'tiny', 'huge', 'nearzero']
-HESS_KINDS = ['random', 'integer', 'graded', 'deflated', 'companion', 'jordan', 'rotation', 'zero', 'smallscale', 'bigscale', 'symmetric', 'tieblock']
+HESS_KINDS = ['random', 'integer', 'graded', 'deflated', 'companion', 'jordan', 'rotation', 'zero', 'smallscale', 'bigscale', 'symmetric', 'tieblock', 'samereal']
 
 
 def tri_case(rng, n, kind, eps):
@@ -70,6 +70,18 @@ def hess_case(rng, n, kind):
             if j > 0:
                 H[j - 1][j] = 0.0
             j += 2 + rng.below(3)
+    elif kind == 'samereal':
+        # block upper triangular with 2x2 blocks [a -b_k; b_k a]: several DIFFERENT complex pairs with bit-for-bit equal real parts, exact zero
+        # sub-diagonals between the blocks, random coupling above them
+        H = hess_matrix(rng, n, 'random'); a = float(rng.range(-2, 2))
+        for j in range(n):
+            for i in range(j + 1, n):
+                H[j][i] = 0.0
+        for q, j in enumerate(range(0, n - 1, 2)):
+            b = float(q + 1) * rng.choice([1.0, 2.0, 0.5])
+            H[j][j] = a; H[j + 1][j + 1] = a; H[j + 1][j] = -b; H[j][j + 1] = b      # H[col][row]
+        if n % 2:
+            H[n - 1][n - 1] = float(rng.range(-3, 3))
     elif kind == 'zero':
         pass
     elif kind in ('smallscale', 'bigscale'):
@@ -89,8 +101,8 @@ def run(ck, replay=None):
                'exact zero sub-diagonals, repeated eigenvalues, Wilkinson, zero, 1e-290 / 1e150 scalings, sub-diagonals at the deflation threshold +-3 ulp), n = 2..24; '
                'UpperHessenbergEigen<double>: eigenvalues recomputed by the model from the Schur factor T and the scale, compared as bit patterns; predicate slice: '
                'T Z = Z D, Z\'Z = I, U T U\' = H, U\'U = I, T quasi-triangular with complex-pair 2x2 blocks only, unit-norm eigenpairs with small residual, value conventions, '
-               'in float/double/long double on 12 Hessenberg families (random, integer, graded, deflated, companion, Jordan-like defective, rotation blocks with repeated '
-               'pairs, zero, 1e-140 / 1e140 scalings, symmetric, isolated 2x2 blocks with an exactly zero discriminant), n = 2..64; non-trivial = n >= 3; distinct by case line')
+               'in float/double/long double on 13 Hessenberg families (random, integer, graded, deflated, companion, Jordan-like defective, rotation blocks with repeated '
+               'pairs, zero, 1e-140 / 1e140 scalings, symmetric, isolated 2x2 blocks with an exactly zero discriminant, several complex pairs with exactly equal real parts), n = 2..64; non-trivial = n >= 3; distinct by case line')
     bad = grep_gate()
     ck.oblige('no Admitted/Axiom/Parameter/disabled checks in the development', not bad, '; '.join(bad))
     with cf.ThreadPoolExecutor(3) as ex:
